@@ -112,7 +112,7 @@ def worker_main(argv: list[str]) -> int:
         # fires once after case_limit seconds and then every 50 ms until the case is over, so that code which swallows
         # the exception (or spins again) cannot keep the worker busy for ever
         fired[0] += 1
-        raise CaseTimeout("wall-clock watchdog: the case ran for more than %d real seconds" % case_limit)
+        raise CaseTimeout("wall-clock watchdog: the case ran for more than its limit of real seconds (default %d)" % case_limit)
 
     case_limit = int(os.environ.get("VERIF_CASE_TIMEOUT_S", plan.get("case_timeout_s", 20)))
     signal.signal(signal.SIGALRM, on_alarm)
@@ -124,7 +124,9 @@ def worker_main(argv: list[str]) -> int:
         tc = time.monotonic()
         try:
             fired[0] = 0
-            signal.setitimer(signal.ITIMER_REAL, case_limit, 0.05)
+            # a case may ask for a longer limit of its own (the repository's test-suite as one workload takes a while on a loaded machine)
+            limit = case.get("timeout_s", case_limit) if isinstance(case, dict) and "VERIF_CASE_TIMEOUT_S" not in os.environ else case_limit
+            signal.setitimer(signal.ITIMER_REAL, limit, 0.05)
             try:
                 r = mod.run_case(case)
             finally:
